@@ -183,7 +183,7 @@ def run(ctx):
                 ctx.regime('beyond_table')
             # float32 memmap: log10 evaluated in float32; float32 (1E, the documented format) tables are
             # interpolated by scipy in float32 arithmetic: relative 1e-7 on the flux = 5e-8 dex
-            delta = 3e-7 * (1 + float(np.max(np.abs(logm)))) if (memmap and is_v2) else (1e-7 if fmt == 'E' else 0.0)
+            delta = 3e-7 * (1 + float(np.max(np.abs(logm)))) if fitcheck.holds_float32(fitter) else (1e-7 if fmt == 'E' else 0.0)
             # model fluxes held by the fitter vs truth (rows by name)
             # state probe: the per-distance model fluxes held by the fitter.  This looks at internal state, so a different
             # layout (shape/attribute) is not judged - the fits below decide then; a same-shaped table with wrong values is.
